@@ -151,6 +151,8 @@ class QueryWorld(World):
 
 
 def url_data(r):
+    if r.random() < 0.1:
+        return {}
     d = {"app": r.choice("abcd"), "title": r.choice(["(2) a title", "* b", "Cemu - FPS: 59.2 - x", "c", "● d"])}
     if r.random() < 0.5:
         d["url"] = r.choice(["https://www.example.com/p?q=1#f", "http://a.b/c", "ftp://x", "notaurl"])
